@@ -220,6 +220,8 @@ def check_headers(case, o, fa):
                 bad.append({'kind': 'not-witness', 'entry': ent, 'pep': pep, 'why': why, 'boundary_only': bool(ok_any),
                             'repair': minimal_repair(bb, set(named), lim, flags, pep),
                             'circular': bb.circular, 'circle_nt': len(bb.seq) if bb.circular else None,
+                            'circ_lapmix': bool(bb.circular and (lambda m: m is not None and pep in m)(
+                                orc.circ_lapmix_peptides(bb, lim.mixed_copy('mixed') if lim.has_context() else lim, flags, only_ids=set(named)))),
                             # a named record that exists on this backbone only INSIDE the donor segment of an AS insertion / substitution
                             'names_nested_record': any(
                                 any(y in e.ids for e in bb.edits) and all(e.tag == 'nested-donor' for e in bb.edits if y in e.ids)
@@ -442,6 +444,16 @@ def mech_spurious(o, p, header=None):
                 bbs = [bb for bb, _ in o['per'] if bb.id == f[0]]
                 if bbs and any(e.side == 1 and (len(e.alt) - (e.end - e.start)) % 3 != 0 for e in bbs[0].edits):
                     return 'KF-FUSION-ACCEPTOR-VAR'
+    if header:
+        lim_ = o['lim'].mixed_copy('mixed') if o['lim'].has_context() else o['lim']
+        for ent in header.split(' '):
+            b0 = ent.split('|')[0]
+            if b0.startswith('CIRC-') or b0.startswith('CI-'):
+                for bb, _ev in o['per']:
+                    if bb.id == b0:
+                        mix = orc.circ_lapmix_peptides(bb, lim_, o['flags'])
+                        if mix is not None and p in mix:
+                            return 'KF-CIRC-LAP-MIX'
     for bb, ev in o['per']:
         nested = [e for e in bb.edits if e.tag == 'nested-donor']
         if not nested:
